@@ -83,7 +83,7 @@ def run(rep, tier):
         "char::from_u32 and crate functions that propagate their failure); each result is followed through "
         "method chains and single-assignment lets to its consumer; unwrap/expect is a violation, `?`, "
         "`if let Ok`, `.ok()?` are the accepted idioms (enumerated from the sites that already do it right).")
-    rep.configs = ["default", "extras"]
+    rep.configs = rep.cfgs(["default", "extras"])
     for cfg in rep.configs:
         f = facts.facts(cfg)
         meta = f.crate("pest_meta", want_feature="grammar-extras" if cfg == "extras" else None)
